@@ -265,6 +265,50 @@ def s_seq(first):
     cover("seq")
 
 
+def s_shared(kind):
+    """ONE sslopt dict object used for two wss connections to DIFFERENT hosts (two create_connection calls, or a redirect):
+    each connection is verified for its own host and the caller's dict is not modified"""
+    quiet_logging()
+    import os as real_os
+    import websocket
+    import websocket._http as H
+    REC["wraps"].clear()
+    REC["contexts"].clear()
+    sslopt = {"check_hostname": True} if kind != "empty" else {}
+    snap = dict(sslopt)
+    n = [0]
+
+    def respond(server, head, key):
+        n[0] += 1
+        if kind == "redirect" and n[0] == 1:
+            return b"HTTP/1.1 302 Found\r\nLocation: wss://second.example/x\r\n\r\n"
+        return ("HTTP/1.1 101 Switching Protocols\r\nUpgrade: websocket\r\nConnection: Upgrade\r\nSec-WebSocket-Accept: %s\r\n\r\n" % accept_for(key)).encode()
+
+    k = Kernel(step_budget=3000)
+    net = Net(k, [{"respond": respond}])
+    simnet.install(k, net)
+    real_ssl, real_os_in_h = H.ssl, H.os
+    H.ssl = FakeSSLModule()
+    H.os = FakeOsMod(real_os, {}, set(), set())
+    try:
+        if kind == "redirect":
+            ws = websocket.create_connection("wss://first.example/x", timeout=5, sslopt=sslopt)
+            ws.shutdown()
+        else:
+            for host in ("first.example", "second.example"):
+                ws = websocket.create_connection("wss://%s/x" % host, timeout=5, sslopt=sslopt)
+                ws.shutdown()
+    finally:
+        H.ssl, H.os = real_ssl, real_os_in_h
+        k.shutdown()
+        simnet.uninstall()
+    names = [w["server_hostname"] for w in REC["wraps"]]
+    sx.require(names == ["first.example", "second.example"], "every connection is verified (and SNI'd) for ITS OWN host, also when one sslopt dict is "
+               "shared or a redirect leads to another host", kind=kind, got=str(names))
+    sx.require(sslopt == snap, "the caller's sslopt dict is not modified", kind=kind, got=str(sorted(sslopt)))
+    cover("shared")
+
+
 def obligations(tier):
     return [
         Obligation("S-cfg", s_cfg, [dict(secure=s, proxied=p) for s in (False, True) for p in (False, True)],
@@ -274,6 +318,9 @@ def obligations(tier):
                    outside=["acceptance/rejection of certificates by OpenSSL (C, FFI, live I/O)"],
                    must_cover=["plain", "tls", "default-verified", "user-context", "contradictory"], budget_s=1800, step_budget=200000,
                    kernel=["_http.connect", "_ssl_socket", "_wrap_sni_socket", "_tunnel", "_get_addrinfo_list"]),
+        Obligation("S-shared", s_shared, [dict(kind=k) for k in ("two-calls", "empty", "redirect")],
+                   bounds="one sslopt dict shared by two connections to different hosts / followed across a wss redirect", must_cover=["shared"],
+                   step_budget=200000, kernel=["_http._ssl_socket", "WebSocket.connect (redirect)"]),
         Obligation("S-seq", s_seq, [dict(first=f) for f in ("certnone", "nohost", "althost", "cafile", "optional", "context")],
                    bounds="a relaxing connection (6 kinds) followed by a default connection in the same process", must_cover=["seq"], step_budget=200000,
                    kernel=["_http._ssl_socket", "_wrap_sni_socket"]),
